@@ -64,6 +64,10 @@ for c in CMP:
         dict(cls=c + '_evplus', name='compare', file=CF, static=True), dict(cls=c + '_evplus', name='isSpecialCase', file=CF, static=True),
     ]
     jobs += [job('cmp_%s_mt' % c, 'lemma_cmp_%s_mt' % c), job('cmp_%s_evplus' % c, 'lemma_cmp_%s_evplus' % c)]
+for op in ('div', 'mod'):
+    funcs += [dict(cls='evplus_' + op, name='stopOnEqualArgs', file=opfile(op), static=True), dict(cls='evplus_' + op, name='simplifiesToFirstArg', file=opfile(op), static=True),
+              dict(cls='evplus_' + op, name='simplifiesToSecondArg', file=opfile(op), static=True)]
+    jobs.append(job('evplus_%s_shortcuts' % op, 'lemma_evplus_%s_shortcuts' % op, props=['C05', 'C16']))
 for op in ('mult', 'div', 'mod'):
     funcs.append(dict(cls='evplus_' + op, name='apply', file=opfile(op), static=True, sel=r'^const edge_value &av, node_handle an', cname='evplus_%s__apply' % op, argc_key=6))
     # 64-bit multiply / divide / remainder equivalence: thorough tier only (did not finish in 600 s on SAT)
